@@ -53,8 +53,13 @@ where
 
         let mut steal = 0;
         if !self.buf.is_empty() {
-            steal = size - self.buf.len();
+            // Complete the partial sample from last time, if this read brought
+            // enough bytes. A short read may still leave it incomplete.
+            steal = std::cmp::min(size - self.buf.len(), n);
             self.buf.extend(&buffer[0..steal]);
+            if self.buf.len() < size {
+                return Ok(BlockRet::Again);
+            }
             v.push(T::parse(&self.buf)?);
             self.buf.clear();
         }
